@@ -115,7 +115,12 @@ KINDS = {
 KINDS["node"] = ({"$ref": "#/definitions/Node"}, [{"val": 1}, {"val": 2, "next": {"val": 3}}], [])
 KINDS["rb"] = ({"$ref": "#/definitions/RB"}, [{}, {"next": {}, "kids": [{}]}], [])
 KINDS["rbs"] = ({"type": "array", "items": {"$ref": "#/definitions/RB"}}, [[], [{}, {"next": {}}]], [])
-CORPUS_ONLY = {"node", "rb", "rbs"}
+KINDS["alpha"] = ({"$ref": "#/definitions/Alpha"},
+                  [{"name": "n"}, {"name": "m", "zed": {"alpha": {"name": "i"}, "n": 5}}], [])
+KINDS["zed"] = ({"$ref": "#/definitions/Zed"}, [{"alpha": {"name": "x"}}, {"alpha": {"name": "y"}, "n": 0}], [])
+KINDS["pa"] = ({"$ref": "#/definitions/Pa"}, [{"id": 1}, {"id": 2, "q": {"label": "l", "pa": {"id": 3}}}], [])
+KINDS["qa"] = ({"$ref": "#/definitions/Qa"}, [{"label": "a", "pa": {"id": 4}}], [])
+CORPUS_ONLY = {"node", "rb", "rbs", "alpha", "zed", "pa", "qa"}
 TD_KINDS = ["shortd", "enumnt", "aliasd", "aliass", "level", "cfgd", "retries", "ratio", "flag",
             "oretries", "oshortd", "olevel", "oaliass", "ishort", "ilevel", "ienumnt", "icfg"]
 
@@ -301,6 +306,12 @@ def tryfrom_table(scan):
     return t
 
 
+def named_local(ent, tid):
+    """name of the generated (crate-local) named type with this id, or None"""
+    e = ent[str(tid)]
+    return e["name"] if e["kind"] in ("struct", "enum", "newtype") else None
+
+
 def field_modes(gen, prop, sfield, tft):
     """setter-argument modes the driver offers for this field (decided from IR + scan)."""
     ent = gen["dump"]["entries"]
@@ -322,6 +333,14 @@ def field_modes(gen, prop, sfield, tft):
         m = re.match(r"^:: std :: option :: Option < (.*) >$", sfield["ty"])
         if m:
             modes.append("o")
+    # "b": a driver-local type `Bad` whose conversion into the member type always fails (possible for
+    # crate-local named types and, Box being #[fundamental], for Box<local>): the failing-conversion message
+    # oracle then runs on every named member kind, incl. Box<T> members inserted by cycle breaking
+    if named_local(ent, prop["type_id"]) or (e["kind"] == "box" and named_local(ent, e["id"])):
+        modes.append("b")
+    # "B": the member struct's own builder as the argument (TryInto fails when a required field is unset)
+    if e["kind"] == "struct":
+        modes.append("B")
     return modes
 
 
@@ -365,6 +384,35 @@ def chunks_fn(i, gen):
         for f in sfields:
             L.append("  v.push(::serde_json::json!([%s, tv(&s.%s)]));" % (rs_str(f["name"]), f["name"]))
         L.append("  ::serde_json::Value::Array(v) }")
+        # driver-local argument type with an always-failing conversion into every crate-local member type
+        ent_ = gen["dump"]["entries"]
+        bad_targets = []
+        for p, f in zip(props, sfields):
+            e_ = ent_[str(p["type_id"])]
+            if named_local(ent_, p["type_id"]):
+                bad_targets.append(f["ty"])
+            elif e_["kind"] == "box" and named_local(ent_, e_["id"]):
+                # both Box<X> (what the setter converts into today) and X
+                bad_targets += [f["ty"], named_local(ent_, e_["id"])]
+        # Box<X> members (cycle breaking): the "v" argument goes through a driver-local wrapper that converts into
+        # Box<X> as well as into X, so that this chunk keeps compiling (and the message oracle keeps running) if the
+        # setter's bound changes between the two; passing Box<X> / X themselves is asserted by the small chunk c18t_*
+        boxed = {}
+        for p, f in zip(props, sfields):
+            e_ = ent_[str(p["type_id"])]
+            if e_["kind"] == "box" and named_local(ent_, e_["id"]):
+                boxed[f["name"]] = named_local(ent_, e_["id"])
+                L.append("pub struct Wrap_%s(pub %s);" % (f["name"], f["ty"]))
+                L.append("impl ::std::convert::TryFrom<Wrap_%s> for %s { type Error = ::std::string::String; "
+                         "fn try_from(w: Wrap_%s) -> ::std::result::Result<Self, ::std::string::String> { Ok(w.0) } }" % (
+                             f["name"], f["ty"], f["name"]))
+                L.append("impl ::std::convert::TryFrom<Wrap_%s> for %s { type Error = ::std::string::String; "
+                         "fn try_from(w: Wrap_%s) -> ::std::result::Result<Self, ::std::string::String> { Ok(*w.0) } }" % (
+                             f["name"], boxed[f["name"]], f["name"]))
+        L.append("pub struct Bad(pub ::std::string::String);")
+        for t_ in sorted(set(bad_targets)):
+            L.append("impl ::std::convert::TryFrom<Bad> for %s { type Error = ::std::string::String; "
+                     "fn try_from(b: Bad) -> ::std::result::Result<Self, ::std::string::String> { Err(b.0) } }" % t_)
         # ---- apply the setters
         L.append("fn apply(mut b: B, sets: &Vec<::serde_json::Value>) -> ::std::result::Result<B, ::std::string::String> {")
         L.append("  for s in sets { let f = s[0].as_str().unwrap_or(\"\"); let m = s[1].as_str().unwrap_or(\"\"); let v = &s[2];")
@@ -374,7 +422,10 @@ def chunks_fn(i, gen):
             fn_, ty = f["name"], f["ty"]
             q = rs_str(fn_)
             for mode in field_modes(gen, p, f, tft):
-                if mode == "v":
+                if mode == "v" and fn_ in boxed:
+                    L.append("      (%s, \"v\") => { let x: %s = ::serde_json::from_value(v.clone()).map_err(|e| format!(\"$drv {}\", e))?; b.%s(Wrap_%s(x)) }" % (q, ty, fn_, fn_))
+                    conv.append("      (%s, \"v\") => { match ::serde_json::from_value::<%s>(v.clone()) { Ok(x) => cv::<_, %s>(Wrap_%s(x)), Err(e) => ::serde_json::json!({\"drv_err\": e.to_string()}) } }" % (q, ty, ty, fn_))
+                elif mode == "v":
                     L.append("      (%s, \"v\") => { let x: %s = ::serde_json::from_value(v.clone()).map_err(|e| format!(\"$drv {}\", e))?; b.%s(x) }" % (q, ty, fn_))
                     conv.append("      (%s, \"v\") => { match ::serde_json::from_value::<%s>(v.clone()) { Ok(x) => cv::<_, %s>(x), Err(e) => ::serde_json::json!({\"drv_err\": e.to_string()}) } }" % (q, ty, ty))
                 elif mode == "i":
@@ -386,6 +437,17 @@ def chunks_fn(i, gen):
                 elif mode == "S":
                     L.append("      (%s, \"S\") => { let x: ::std::string::String = v.as_str().ok_or(\"$drv str\")?.to_string(); b.%s(x) }" % (q, fn_))
                     conv.append("      (%s, \"S\") => { match v.as_str() { Some(x) => cv::<::std::string::String, %s>(x.to_string()), None => ::serde_json::json!({\"drv_err\": \"str\"}) } }" % (q, ty))
+                elif mode == "b":
+                    L.append("      (%s, \"b\") => { let x = Bad(v.as_str().ok_or(\"$drv str\")?.to_string()); b.%s(x) }" % (q, fn_))
+                    conv.append("      (%s, \"b\") => { match v.as_str() { Some(x) => cv::<Bad, %s>(Bad(x.to_string())), None => ::serde_json::json!({\"drv_err\": \"str\"}) } }" % (q, ty))
+                elif mode == "B":
+                    bty = "super::super::builder::%s" % named_local(gen["dump"]["entries"], p["type_id"])
+                    mk = ("if v.is_null() { ::std::default::Default::default() } else { let y: %s = "
+                          "::serde_json::from_value(v.clone()).map_err(|e| format!(\"$drv {}\", e))?; y.into() }" % ty)
+                    L.append("      (%s, \"B\") => { let x: %s = %s; b.%s(x) }" % (q, bty, mk, fn_))
+                    mk2 = ("if v.is_null() { Some(<%s as ::std::default::Default>::default()) } else { "
+                           "::serde_json::from_value::<%s>(v.clone()).ok().map(|y| y.into()) }" % (bty, ty))
+                    conv.append("      (%s, \"B\") => { let x: Option<%s> = %s; match x { Some(x) => cv::<%s, %s>(x), None => ::serde_json::json!({\"drv_err\": \"value\"}) } }" % (q, bty, mk2, bty, ty))
                 elif mode == "o":
                     inner = option_inner(ty)
                     L.append("      (%s, \"o\") => { let x: %s = ::serde_json::from_value(v.clone()).map_err(|e| format!(\"$drv {}\", e))?; b.%s(x) }" % (q, inner, fn_))
@@ -443,6 +505,19 @@ def chunks_fn(i, gen):
         L.append("}")
         arms = [(name, "c18_" + op, "%s::%s(input)" % (mod, op)) for op in ("build", "conv", "defields", "unbuild", "defaults")]
         chunks.append(("c18_" + name, "\n".join(L), arms))
+        if boxed:
+            # API shape of Box members, separately (a failure here is reported but costs no coverage)
+            T = ["pub mod c18t_%s {" % name, "use super::super::*;",
+                 "pub fn direct(input: &::serde_json::Value) -> ::serde_json::Value {",
+                 "  let mut b = super::super::%s::builder();" % name]
+            for f in sfields:
+                if f["name"] in boxed:
+                    T.append("  if let Ok(x) = ::serde_json::from_value::<%s>(input[%s].clone()) { b = b.%s(x); }" % (
+                        f["ty"], rs_str(f["name"]), f["name"]))
+                    T.append("  if let Ok(x) = ::serde_json::from_value::<%s>(input[%s].clone()) { b = b.%s(x); }" % (
+                        boxed[f["name"]], rs_str(f["name"]), f["name"]))
+            T += ["  let _ = b; ::serde_json::json!({\"ok\": true}) }", "}"]
+            chunks.append(("c18t_" + name, "\n".join(T), [(name, "c18_direct", "c18t_%s::direct(input)" % name)]))
     return chunks
 
 
@@ -453,6 +528,11 @@ def arg_ok(kind, mode, val):
     """does the conversion of this setter argument succeed, judged from the schema?"""
     if mode in ("v", "o"):
         return True
+    if mode == "b":
+        return False
+    if mode == "B":
+        # the member type's builder: empty (None) succeeds only when the member struct has no required field
+        return val is not None or kind in NO_REQUIRED
     if mode == "i":
         if kind in ENUM_INTS:
             return val in ENUM_INTS[kind]
@@ -479,6 +559,19 @@ def arg_ok(kind, mode, val):
     if kind == "str":
         return True
     raise KeyError((kind, mode))
+
+
+# struct kinds without a required field (an empty builder of that type builds)
+NO_REQUIRED = {"inner", "cfgd", "icfg", "rb"}
+
+
+def member_json(kind, mode, v):
+    """the JSON member of `the object with the same members` for a converting setter argument"""
+    if mode in ("s", "S") and kind in STR_JSON:
+        return STR_JSON[kind](v)
+    if mode == "B" and v is None:
+        return {}
+    return v
 
 
 class StructCase:
@@ -553,6 +646,10 @@ def gen_sets(rnd, sc, tier):
             return rnd.choice(INT_ARGS)
         if mode in ("s", "S"):
             return rnd.choice(STR_ARGS[s["kind"]])[0]
+        if mode == "b":
+            return rnd.choice(["this is not a value", "nope: {}", "bad \u00e9"])
+        if mode == "B":
+            return rnd.choice([None, None] + [v_ for v_ in KINDS[s["kind"]][1] if v_ is not None])
         if mode == "o":
             # inner value of an Option<T> field: any non-null valid value
             if sc.flat(k):
@@ -628,7 +725,7 @@ def expected_direct(sc, seq):
         if ident in last:
             mode, v = last[ident]
             if arg_ok(s["kind"], mode, v):
-                obj[s["json"]] = STR_JSON[s["kind"]](v) if mode in ("s", "S") and s["kind"] in STR_JSON else v
+                obj[s["json"]] = member_json(s["kind"], mode, v)
             else:
                 offenders.append((ident, "conv"))
         elif s["state"] == "required":
@@ -1099,6 +1196,13 @@ def emulate_mutation(ctx, w, structs):
                             and e_["default"]["v"] != p["state"]["v"]:
                         b["fields"][k][1] = e_["default"]["v"]
                         b["ok"][sc.wire(k)] = e_["default"]["v"]
+            elif MUT == "box-setter-msg" and "err" in b and b["err"].startswith("error converting supplied value for "):
+                # the setter of a Box<T> member (cycle breaking) reports the bare conversion error
+                ent = sc.gen["dump"]["entries"]
+                for p in sc.props:
+                    pre = "error converting supplied value for %s: " % p["name"]
+                    if ent[str(p["type_id"])]["kind"] == "box" and b["err"].startswith(pre):
+                        b["err"] = b["err"][len(pre):]
             elif MUT == "default-differs" and "ok" in b:
                 # builder default of a defaulted property differs from the serde default
                 for k, p in enumerate(sc.props):
